@@ -266,7 +266,9 @@ class CFG:
         return not self.reaches(start, target, avoid=via)
 
 
-def cfg_of(funcinfo, _cache={}):
+def cfg_of(funcinfo):
+    # kept on the parsed module, so that it goes away with the Repo it belongs to (a process analyses many scratch copies)
+    _cache = funcinfo.module.__dict__.setdefault("_cfg_cache", {})
     key = id(funcinfo.node)
     c = _cache.get(key)
     if c is None or c.func is not funcinfo.node:
